@@ -36,6 +36,7 @@ import (
 	ct "github.com/google/certificate-transparency-go"
 	"github.com/google/certificate-transparency-go/internal/verifkit"
 	"github.com/google/certificate-transparency-go/tls"
+	"github.com/google/certificate-transparency-go/trillian/ctfe/cache"
 	"github.com/google/certificate-transparency-go/trillian/ctfe/configpb"
 	"github.com/google/certificate-transparency-go/x509"
 	"github.com/google/certificate-transparency-go/x509util"
@@ -545,7 +546,7 @@ func c15Describe(cfg *configpb.LogConfig) c15Info {
 			fail("frozen")
 		}
 		in.frozenSz = uint64(sth.TreeSize)
-		fz = verifkit.B(v) + verifkit.B(s) + verifkit.B(g) + fmt.Sprintf(":%d", in.frozenSz)
+		fz = verifkit.B(v) + verifkit.B(s) + verifkit.B(g) + ":" + c15SthTok(sth)
 	}
 	// connection string: usable = what storage/mysql.open and storage/postgresql.open accept (exactly one
 	// "://", scheme mysql | postgres | postgresql) and the driver's parser accepts
@@ -582,6 +583,11 @@ func c15Describe(cfg *configpb.LogConfig) c15Info {
 		fz, int32(cfg.ExtraDataIssuanceChainStorageBackend), c15Hex(conn), verifkit.B(dsnOK), verifkit.B(pgOK), c15Hex(cfg.LogBackendName))
 	in.enc = sb.String()
 	return in
+}
+
+// c15SthTok renders a frozen STH for the model: size:timestamp:root:signature (the uint64 conversions of validation).
+func c15SthTok(sth *configpb.SignedTreeHead) string {
+	return fmt.Sprintf("%d:%d:%s:%s", uint64(sth.TreeSize), uint64(sth.Timestamp), verifkit.Hex(sth.Sha256RootHash), verifkit.Hex(sth.TreeHeadSignature))
 }
 
 func c15Tags(infos ...c15Info) string {
@@ -1126,8 +1132,11 @@ func c15Sig() ct.DigitallySigned {
 
 func (e *c15Env) opSetUp(cfg *configpb.LogConfig, m c15Meta) {
 	ctx := context.Background()
-	if cfg.ExtraDataIssuanceChainStorageBackend == configpb.LogConfig_ISSUANCE_CHAIN_STORAGE_BACKEND_CTFE {
-		return // would open a database connection (and exit the process on failure)
+	external := cfg.ExtraDataIssuanceChainStorageBackend == configpb.LogConfig_ISSUANCE_CHAIN_STORAGE_BACKEND_CTFE
+	if parts := strings.Split(cfg.CtfeStorageConnectionString, "://"); external && (len(parts) != 2 || (parts[0] != "postgres" && parts[0] != "postgresql")) {
+		// storage/mysql.open connects (SET sql_mode) and the constructor exits the process when that fails; the
+		// PostgreSQL storage only opens a lazy handle, so external-storage instances are set up with those strings
+		return
 	}
 	vCfg, err := ValidateLogConfig(cfg)
 	if err != nil {
@@ -1161,6 +1170,15 @@ func (e *c15Env) opSetUp(cfg *configpb.LogConfig, m c15Meta) {
 	st := &c15Storage{mode: "h", known: 1000}
 	fl := &verifkit.FuncLog{}
 	opts := InstanceOptions{Validated: vCfg, Client: fl, Deadline: time.Second, MetricFactory: monitoring.InertMetricFactory{}, RequestLog: new(DefaultRequestLog), STHStorage: st}
+	// cache options only matter for external storage; oracle bit by the same constructor
+	cacheOK := true
+	if external {
+		opts.CacheType = []cache.Type{"", cache.NOOP, cache.LRU, cache.LRU, "bogus"}[e.r.Intn(5)]
+		opts.CacheOption = cache.Option{Size: []int{0, 5, 1000, -1}[e.r.Intn(4)], TTL: []time.Duration{0, time.Minute, -time.Second}[e.r.Intn(3)]}
+		_, cerr := cache.NewIssuanceChainCache(ctx, opts.CacheType, opts.CacheOption)
+		cacheOK = cerr == nil
+		e.out.Count("class:setup-external-storage")
+	}
 	var inst *Instance
 	var serr error
 	p := verifkit.Guard(func() { inst, serr = SetUpInstance(ctx, opts) })
@@ -1184,9 +1202,13 @@ func (e *c15Env) opSetUp(cfg *configpb.LogConfig, m c15Meta) {
 		for _, k := range keysGot {
 			hk = append(hk, c15Hex(k))
 		}
-		ans = fmt.Sprintf("ok %d %s", getter, strings.Join(hk, ","))
+		_, isExt := inst.li.issuanceChainService.(*indirectIssuanceChainService)
+		if isExt != external {
+			e.out.Fail("chain-service "+c15Short(cfg), fmt.Sprintf("external chain service=%v, configured backend external=%v", isExt, external))
+		}
+		ans = fmt.Sprintf("ok %d %s %s", getter, verifkit.B(isExt), strings.Join(hk, ","))
 	}
-	e.out.T(fmt.Sprintf("su %s ; %d %s %s %s %s", in.enc, len(cfg.RootsPemFile), verifkit.B(rootsOK), verifkit.B(signerOK), verifkit.B(consistent), verifkit.B(oidsOK)), ans)
+	e.out.T(fmt.Sprintf("su %s ; %d %s %s %s %s 1 %s", in.enc, len(cfg.RootsPemFile), verifkit.B(rootsOK), verifkit.B(signerOK), verifkit.B(consistent), verifkit.B(oidsOK), verifkit.B(cacheOK)), ans)
 	desc := c15Short(cfg)
 	if p != "" {
 		e.out.Fail("panic:setup "+desc, p)
@@ -1281,7 +1303,7 @@ func (e *c15Env) opSetUp(cfg *configpb.LogConfig, m c15Meta) {
 		}
 		fzTok := "-"
 		if cfg.FrozenSth != nil {
-			fzTok = fmt.Sprintf("%d", in.frozenSz)
+			fzTok = c15SthTok(cfg.FrozenSth)
 		}
 		ans := "err"
 		var rsp ct.GetSTHResponse
@@ -1291,7 +1313,11 @@ func (e *c15Env) opSetUp(cfg *configpb.LogConfig, m c15Meta) {
 			if err := json.Unmarshal(body, &rsp); err != nil {
 				ans = "badjson"
 			} else {
-				ans = fmt.Sprintf("200 %d", rsp.TreeSize)
+				sg := verifkit.Hex(rsp.TreeHeadSignature)
+				if cfg.FrozenSth == nil && !cfg.IsMirror {
+					sg = "*" // a fresh signature of the log's own key
+				}
+				ans = fmt.Sprintf("200 %d %d %s %s", rsp.TreeSize, rsp.Timestamp, verifkit.Hex(rsp.SHA256RootHash), sg)
 			}
 		}
 		if len(st.asked) > 0 {
